@@ -6,6 +6,7 @@ pattern up to a length bound realised with a random spelling, plus random
 sequences of every class, all run through the real SequenceParameters."""
 from .. import gen
 from .. import refmodel as M
+from ..tapes import Shim, installed
 
 ID = "C02"
 LEVEL = "exploration"
@@ -23,7 +24,7 @@ ASSUMPTIONS = [
     "holds only on the inputs driven; nothing is claimed for inputs not generated",
 ]
 REQUIRED = {"all": ["len_lt5", "len_eq5", "len_eq6", "net_negative", "net_zero", "net_positive", "uncharged",
-                    "random_long", "longer_than_1000"]}
+                    "random_long", "longer_than_1000", "shuffled_objects"]}
 LMAX = {"quick": 11, "thorough": 13}
 NRANDOM = {"quick": 1500, "thorough": 20000}
 NLONG = {"quick": 6, "thorough": 40}
@@ -87,3 +88,16 @@ def judge(case, rep, S):
                  sig={"L": L, "p": p, "n": n})
     if L < 5 and got != 0:
         rep.viol("short_sequence_nonzero", "length %d < 5 must give 0, got %r for %s" % (L, got, seq))
+    # objects that reach the user by another route than the constructor: a (partly frozen) shuffle of the object
+    if case["k"] == "seq" and 2 <= L <= 150:
+        rng = gen.sub_rng(0, "shuffle", seq)
+        frozen = sorted(set(rng.randrange(L) for _ in range(rng.randint(1, max(1, L // 2)))))
+        with installed([S["seqmod"]], Shim("C02/" + seq[:20] + str(L))):
+            child = obj.get_shuffled_sequence(rng.choice([set(frozen), list(frozen)]))
+        cseq = child.get_sequence()
+        cgot = child.get_delta()
+        cwant = M.delta_exact(M.pattern(cseq))
+        rep.cnt("shuffled_objects")
+        if not M.close(float(cgot), float(cwant)):
+            rep.viol("delta_value_shuffled_object", "get_delta() of the object returned by get_shuffled_sequence(%r) is %r, but its "
+                     "sequence %s has delta %r" % (frozen, cgot, cseq, float(cwant)), sig={"L": L})
